@@ -87,6 +87,15 @@ def ref_compare(a, b):
             if c:
                 return c
         return -1 if len(a) < len(b) else (0 if len(a) == len(b) else 1)
+    if isinstance(a, dict) and isinstance(b, dict):
+        ia, ib = sorted(a.items()), sorted(b.items())
+        for (ka, va), (kb, vb) in zip(ia, ib):
+            if ka != kb:
+                return -1 if ka < kb else 1
+            c = ref_compare(va, vb)
+            if c:
+                return c
+        return -1 if len(ia) < len(ib) else (0 if len(ia) == len(ib) else 1)
     ta, tb = ref_type(a), ref_type(b)
     return -1 if ta < tb else (0 if ta == tb else 1)
 
@@ -315,7 +324,17 @@ def _lib_array_sort(vm, args):
     return arr
 
 
+def _lib_object_new(vm, args):
+    out = {}
+    for ix in range(0, len(args), 2):
+        if not isinstance(args[ix], str):
+            _fail()
+        out[args[ix]] = args[ix + 1] if ix + 1 < len(args) else None
+    return out
+
+
 LIB = {
+    'objectNew': _lib_object_new,
     'arraySort': _lib_array_sort,
     'arrayNew': _lib_array_new,
     'arrayPush': _lib_array_push,
